@@ -1,11 +1,222 @@
-(** Properties_C04.v — statements only (C04: the validator accepts valid models and rejects every rule violation). *)
+(** Properties_C04.v — statements only.  C04: the validator accepts valid models and rejects every rule violation.
+
+    Model: LC.ValidDefs ([validate fx ueq early W]: Validator::validateModel on model 0 of the world W; [fx] the repairs
+    of fixes/C04-*.diff, [ueq] the unit reduction of validateEquivalenceUnits (C08's model in the correspondence run),
+    [early] the loop condition repaired by C19).  Specification: LC.ValidSpec ([WF]: one clause per rule).
+
+    Scope of the equivalence theorems: worlds whose model 0 has no import source with a model attached
+    ([unresolved_world]; imported items are covered by the location theorems), object identity faithfully encoded
+    ([Repr]); the two model-wide passes over identifiers and reset orders enter through the checker's own verdict
+    ([IdsOK], [OrdersOK]) — see the NOT PROVED notes at the end. *)
 From Coq Require Import String Ascii List Bool Arith ZArith.
-From LC Require Import MathDefs ValidDefs ValidProofs.
+From LC Require Import MathDefs ValidDefs ValidSpec ValidLeaf ValidMathProofs ValidCompProofs ValidUnitsProofs ValidProofs
+  ValidCitedProofs ValidCycleProofs ValidWitness.
 Import ListNotations.
 Local Open Scope string_scope.
+Local Open Scope list_scope.
 
 (** Every rule the model cites is an enumerator of the ReferenceRule enum regenerated from issue.h on this run. *)
 Theorem C04_rules_in_table :
   forallb (fun r => match vrule_num r with Some _ => true | None => false end) all_vrules = true.
 Proof. exact ValidProofs.rules_in_table. Qed.
 Print Assumptions C04_rules_in_table.
+
+(** validate = [] <-> WF (+ the two model-wide passes): soundness and completeness in one statement. *)
+Theorem C04_validate_iff_partial : forall fx ueq W, Repr (model_at W 0) -> unresolved_world W ->
+  (validate fx ueq false W = [] <-> WF fx ueq W /\ IdsOK fx W /\ OrdersOK fx W).
+Proof. exact ValidProofs.validate_nil_iff. Qed.
+Print Assumptions C04_validate_iff_partial.
+
+Theorem C04_validate_complete_partial : forall fx ueq W, Repr (model_at W 0) -> unresolved_world W ->
+  WF fx ueq W -> IdsOK fx W -> OrdersOK fx W -> validate fx ueq false W = [].
+Proof. exact ValidProofs.validate_complete. Qed.
+Print Assumptions C04_validate_complete_partial.
+
+Theorem C04_validate_sound_partial : forall fx ueq W, Repr (model_at W 0) -> unresolved_world W ->
+  validate fx ueq false W = [] -> WF fx ueq W.
+Proof. exact ValidProofs.validate_sound. Qed.
+Print Assumptions C04_validate_sound_partial.
+
+(** Non-vacuity: a model with units (prefix, reference to local units, an import), an encapsulation hierarchy, an
+    imported component, a mapping with ids, initial values (real and variable reference), a reset and MathML with
+    qualifiers is accepted, and therefore satisfies WF. *)
+Example C04_nonvacuous : validate all_fixed ueq_c08 false w_valid = [] /\ WF all_fixed ueq_c08 w_valid.
+Proof. exact (conj ValidWitness.w_valid_accepted ValidWitness.w_valid_wf). Qed.
+Print Assumptions C04_nonvacuous.
+
+(** Every issue of the validator has level ERROR. *)
+Theorem C04_all_errors : forall fx ueq early W i, In i (validate fx ueq early W) -> fst i = Error.
+Proof. exact ValidCitedProofs.all_errors. Qed.
+Print Assumptions C04_all_errors.
+
+(** The units pass alone: silent iff every units is fine, names and imports are distinct and the reference graph is acyclic. *)
+Theorem C04_units_pass : forall W, units_stay_local (model_at W 0) ->
+  (flat_map (fun u => validate_units (units_fuel W) W 0 true [] u ORIGIN) (m_units (model_at W 0)) = [] <->
+   Forall (UnitsOK (model_at W 0)) (m_units (model_at W 0)) /\ NoDup (map u_name (m_units (model_at W 0)))
+   /\ ImportsDistinct (model_at W 0) /\ UnitsAcyclic (model_at W 0)).
+Proof. exact ValidUnitsProofs.units_pass_nil. Qed.
+Print Assumptions C04_units_pass.
+
+(** The cycle detector is total and exact on EVERY units reference graph, cyclic or not: the recursion never exceeds
+    the fuel validateModel gives it, and a cycle issue is raised iff a cycle can be reached from the units. *)
+Theorem C04_unit_cycle_detector_total : forall W u, units_stay_local (model_at W 0) ->
+  In u (m_units (model_at W 0)) -> first_named (model_at W 0) u ->
+  let out := validate_units (units_fuel W) W 0 true [] u ORIGIN in
+  (forall i, In i out -> ~ is_fuel_issue i)
+  /\ ((exists i, In i out /\ is_cycle_issue i) <-> reaches_cycle (model_at W 0) (u_name u)).
+Proof. exact ValidCycleProofs.unit_cycle_detector_total. Qed.
+Print Assumptions C04_unit_cycle_detector_total.
+
+(** LOCATION-FREE.  Whatever validateComponent raises on ANY component of the hierarchy is reported ... *)
+Theorem C04_location_free_component : forall fx ueq early W c r, In c (model_comps (model_at W 0)) ->
+  In r (validate_component (fx_math_qual fx) (comp_fuel W) W 0 [] (c_info c)) -> In (Error, r) (validate fx ueq early W).
+Proof. exact ValidCitedProofs.component_reached. Qed.
+Print Assumptions C04_location_free_component.
+
+(** ... so is whatever validateVariable raises on a variable at any position of any component, ... *)
+Theorem C04_location_free_variable : forall fx ueq early W c v pre post r,
+  In c (model_comps (model_at W 0)) -> c_imp (c_info c) = None -> c_vars (c_info c) = pre ++ v :: post ->
+  In r (validate_variable (model_at W 0) (c_info c) (map v_name pre) v) -> In (Error, r) (validate fx ueq early W).
+Proof. exact ValidCitedProofs.variable_reached. Qed.
+Print Assumptions C04_location_free_variable.
+
+(** ... validateReset on every reset, ... *)
+Theorem C04_location_free_reset : forall fx ueq early W c rs r,
+  In c (model_comps (model_at W 0)) -> c_imp (c_info c) = None -> In rs (c_resets (c_info c)) ->
+  In r (validate_reset (fx_math_qual fx) (model_at W 0) (model_locs (model_at W 0)) (c_info c) rs) ->
+  In (Error, r) (validate fx ueq early W).
+Proof. exact ValidCitedProofs.reset_reached. Qed.
+Print Assumptions C04_location_free_reset.
+
+(** ... validateMath on the math of every component and on the test_value and reset_value of every reset, ... *)
+Theorem C04_location_free_math : forall fx ueq early W c r,
+  In c (model_comps (model_at W 0)) -> c_imp (c_info c) = None ->
+  In r (validate_math (fx_math_qual fx) (map v_name (c_vars (c_info c))) (units_names (model_at W 0)) (c_math (c_info c))) ->
+  In (Error, r) (validate fx ueq early W).
+Proof. exact ValidCitedProofs.component_math_reached. Qed.
+Print Assumptions C04_location_free_math.
+
+Theorem C04_location_free_reset_math : forall fx ueq early W c rs r,
+  In c (model_comps (model_at W 0)) -> c_imp (c_info c) = None -> In rs (c_resets (c_info c)) ->
+  (In r (validate_math (fx_math_qual fx) (map v_name (c_vars (c_info c))) (units_names (model_at W 0)) (r_tv rs))
+   \/ In r (validate_math (fx_math_qual fx) (map v_name (c_vars (c_info c))) (units_names (model_at W 0)) (r_rv rs))) ->
+  In (Error, r) (validate fx ueq early W).
+Proof. exact ValidCitedProofs.reset_math_reached. Qed.
+Print Assumptions C04_location_free_reset_math.
+
+(** ... validateComponent on the target of a resolved component import, ... *)
+Theorem C04_location_free_imported_component : forall fx ueq early W c s cref mj ic r,
+  In c (model_comps (model_at W 0)) -> c_imp (c_info c) = Some (s, cref) -> is_model s = Some mj ->
+  find_comp (model_at W mj) cref = Some ic ->
+  import_cycle [] (mkEp (c_name (c_info c)) (importee_url [] (is_url s)) (is_url s) 0 (Some mj)) = false ->
+  In r (validate_component (fx_math_qual fx) (length W) W mj
+          [mkEp (c_name (c_info c)) (importee_url [] (is_url s)) (is_url s) 0 (Some mj)] (c_info ic)) ->
+  In (Error, r) (validate fx ueq early W).
+Proof. exact ValidCitedProofs.imported_component_reached. Qed.
+Print Assumptions C04_location_free_imported_component.
+
+(** ... and validateUnits on every units of the model (up to the exchange of the two "units name unique" rules that
+    one description-keyed de-duplication can cause). *)
+Theorem C04_location_free_units : forall fx ueq early W u i, In u (m_units (model_at W 0)) ->
+  In i (validate_units (units_fuel W) W 0 true [] u ORIGIN) ->
+  exists r, In (Error, r) (validate fx ueq early W) /\ same_class (rule_of i) r.
+Proof. exact ValidCitedProofs.units_reached. Qed.
+Print Assumptions C04_location_free_units.
+
+(** NOT location-free (open finding C04-imported-component-children): a component encapsulated by the target of a
+    resolved component import is not looked at — the child's own validation raises VARIABLE_NAME_VALUE, the validator
+    reports nothing. *)
+Theorem C04_location_free_imported_children_refuted :
+  validate all_fixed ueq_c08 false w_import_child = []
+  /\ validate_component true 2 w_import_child 1 [] (mkC 21 "child" "" "" None [mk_var 22 "1bad" "second" "" []] [] [])
+     = [V_VARIABLE_NAME_VALUE].
+Proof. exact ValidWitness.w_import_child_facts. Qed.
+Print Assumptions C04_location_free_imported_children_refuted.
+
+(** RULE CITED.  [cite] is the identity on the rules the model names after the enumerators the code attaches; the
+    violations are stated per entity in ValidCitedProofs (var_violation, reset_violation, math_violation). *)
+Theorem C04_rule_cited_variable : forall fx ueq early W c v pre post R,
+  In c (model_comps (model_at W 0)) -> c_imp (c_info c) = None -> c_vars (c_info c) = pre ++ v :: post ->
+  var_violation (model_at W 0) (c_info c) (map v_name pre) v R -> In (Error, R) (validate fx ueq early W).
+Proof. exact ValidCitedProofs.variable_rule_cited. Qed.
+Print Assumptions C04_rule_cited_variable.
+
+Theorem C04_rule_cited_reset : forall fx ueq early W c rs R,
+  In c (model_comps (model_at W 0)) -> c_imp (c_info c) = None -> In rs (c_resets (c_info c)) ->
+  reset_violation (c_info c) (model_locs (model_at W 0)) rs R -> In (Error, R) (validate fx ueq early W).
+Proof. exact ValidCitedProofs.reset_rule_cited. Qed.
+Print Assumptions C04_rule_cited_reset.
+
+Theorem C04_rule_cited_math : forall fx ueq early W c docs R,
+  In c (model_comps (model_at W 0)) -> c_imp (c_info c) = None ->
+  (docs = c_math (c_info c) \/ exists rs, In rs (c_resets (c_info c)) /\ (docs = r_tv rs \/ docs = r_rv rs)) ->
+  math_violation (fx_math_qual fx) (map v_name (c_vars (c_info c))) (units_names (model_at W 0)) docs R ->
+  In (Error, R) (validate fx ueq early W).
+Proof. exact ValidCitedProofs.math_rule_cited. Qed.
+Print Assumptions C04_rule_cited_math.
+
+Theorem C04_rule_cited_model_name : forall fx ueq early W,
+  ~ IsIdent (m_name (model_at W 0)) -> In (Error, V_MODEL_NAME_VALUE) (validate fx ueq early W).
+Proof. exact ValidCitedProofs.model_name_cited. Qed.
+Print Assumptions C04_rule_cited_model_name.
+
+Theorem C04_rule_cited_component_name : forall fx ueq early W c,
+  In c (model_comps (model_at W 0)) -> ~ IsIdent (c_name (c_info c)) ->
+  In (Error, if is_import_c (c_info c) then V_IMPORT_COMPONENT_NAME_VALUE else V_COMPONENT_NAME_VALUE) (validate fx ueq early W).
+Proof. exact ValidCitedProofs.component_name_cited. Qed.
+Print Assumptions C04_rule_cited_component_name.
+
+(** MathML faults at any depth of a document are seen: unsupported elements, unknown <ci>, <cn> units. *)
+Theorem C04_math_any_depth : forall q vars units d,
+  is_mathml_el "math" d = true ->
+  (forall k y, In k (kids_of d) -> In y (elements k) -> is_supported y = false -> In R_MATH_CHILD (val_math_env_q q vars units d))
+  /\ (forall ns n attrs kids, In (Elem ns n attrs kids) (elements d) -> is_mathml_el "ci" (Elem ns n attrs kids) = true ->
+        text_of (first_child kids) <> "" -> ~ In (text_of (first_child kids)) vars ->
+        In R_MATH_CI_VARIABLE_REFERENCE (val_math_env_q q vars units d))
+  /\ (forall ns n attrs kids r, In (Elem ns n attrs kids) (elements d) -> is_mathml_el "cn" (Elem ns n attrs kids) = true ->
+        In r (val_cn_units units attrs) -> In r (val_math_env_q q vars units d)).
+Proof.
+  intros q vars units d Hd. split; [|split].
+  - intros k y. exact (ValidCitedProofs.doc_unsupported q vars units d k y Hd).
+  - intros ns n attrs kids. exact (ValidCitedProofs.doc_ci_unknown q vars units d ns n attrs kids Hd).
+  - intros ns n attrs kids r. exact (ValidCitedProofs.doc_cn_units q vars units d ns n attrs kids r Hd).
+Qed.
+Print Assumptions C04_math_any_depth.
+
+(** The MathML passes of this model with the qualifier switch off ARE C01's transcription of validateMath. *)
+Theorem C04_math_is_C01_transcription : forall vars units root,
+  val_math_env_q false vars units root = MathDefs.val_math_env vars units root.
+Proof. exact ValidMathProofs.val_math_env_q_false. Qed.
+Print Assumptions C04_math_is_C01_transcription.
+
+(** REFUTED on the tree before fixes/C04-*.diff (the witnesses replayed on the real library are the findings):
+    soundness — accepted although a rule is broken: duplicate reset orders across an indirectly connected variable set;
+    an empty <ci> inside <bvar>; a map_variables id that is not an XML name on a pair with colliding name concatenations.
+    The repaired model cites the rule in each case. *)
+Theorem C04_validate_sound_unfixed_refuted :
+  (validate unfixed ueq_c08 false w_reset_chain = []
+   /\ has_rule V_RESET_ORDER_UNIQUE (validate all_fixed ueq_c08 false w_reset_chain) = true)
+  /\ (validate unfixed ueq_c08 false w_bvar_empty_ci = []
+      /\ has_rule V_MATH_CI_VARIABLE_REFERENCE (validate all_fixed ueq_c08 false w_bvar_empty_ci) = true)
+  /\ (validate unfixed ueq_c08 false w_concat = []
+      /\ has_rule V_XML_ID_ATTRIBUTE (validate all_fixed ueq_c08 false w_concat) = true).
+Proof. exact (conj ValidWitness.w_reset_chain_facts (conj ValidWitness.w_bvar_empty_ci_facts ValidWitness.w_concat_facts)). Qed.
+Print Assumptions C04_validate_sound_unfixed_refuted.
+
+(** completeness — rejected although valid: one import element with an id and two children. *)
+Theorem C04_validate_complete_unfixed_refuted :
+  validate all_fixed ueq_c08 false w_shared_import = []
+  /\ has_rule V_XML_ID_ATTRIBUTE (validate unfixed ueq_c08 false w_shared_import) = true.
+Proof. exact ValidWitness.w_shared_import_facts. Qed.
+Print Assumptions C04_validate_complete_unfixed_refuted.
+
+(* NOT PROVED: the declarative counterparts of the two model-wide passes, i.e.
+     IdsOK fx W  <->  every id of the document is an XML name /\ NoDup (ValidSpec.entity_ids + mapping / connection ids)
+     OrdersOK all_fixed W  <->  ValidSpec.ResetOrdersUnique (model_at W 0)      (and its refutation for [unfixed] beyond the witness above)
+   Both passes are fold-with-accumulator transcriptions (buildModelIdMap, buildModelResetOrderMap); they are tied to the
+   code by the correspondence run and enter C04_validate_iff_partial through their own verdict.
+   NOT PROVED: the equivalence for worlds whose model 0 has RESOLVED imports (validateUnits / validateComponent then
+   recurse into the attached models); what is proved there is C04_location_free_imported_component (issues of the import
+   target are reported) and the refutation for its children.
+   NOT PROVED: that the table is_name_start_char / is_name_char on packed UTF-8 bytes equals the code-point ranges of
+   the XML recommendation (compared with the implementation byte string by byte string in the correspondence run). *)
